@@ -75,7 +75,19 @@ func c07value(rng *rand.Rand, big bool) []byte {
 
 // c07gen builds a request whose keys fall into exactly nfrag distinct slots.
 func c07gen(rng *rand.Rand, kind string, nfrag, nkeys int, big bool) *c07req {
-	return c07genSlots(rng, kind, rng.Perm(16384)[:nfrag], nkeys, big)
+	slots := rng.Perm(16384)[:nfrag]
+	if rng.Intn(4) == 0 {
+		// the ends of the slot space (slot 0 is also the zero value of every slot variable)
+		b := []int{0, 16383}[rng.Intn(2)]
+		dup := false
+		for _, s := range slots {
+			dup = dup || s == b
+		}
+		if !dup {
+			slots[rng.Intn(nfrag)] = b
+		}
+	}
+	return c07genSlots(rng, kind, slots, nkeys, big)
 }
 
 // c07genNodes is c07gen with every fragment on a different node, none of them on avoid.
@@ -119,6 +131,18 @@ func c07genSlots(rng *rand.Rand, kind string, slots []int, nkeys int, big bool) 
 		mvals = append(mvals, []byte(fmt.Sprintf("mv%d\r\n", i)))
 	}
 	rng.Shuffle(len(r.keys), func(i, j int) { r.keys[i], r.keys[j] = r.keys[j], r.keys[i] })
+	if rng.Intn(2) == 0 {
+		// a key of slot 0 / 16383, when there is one, leads the request
+		for i, k := range r.keys {
+			if ks := KeySlot(k); ks == 0 || ks == 16383 {
+				r.keys[0], r.keys[i] = r.keys[i], r.keys[0]
+				if kind == "mset" {
+					mvals[0], mvals[i] = mvals[i], mvals[0]
+				}
+				break
+			}
+		}
+	}
 	r.slots, r.groups = SplitKeys(r.keys)
 	args := [][]byte{randCase(rng, kind)}
 	for i, k := range r.keys {
@@ -460,6 +484,131 @@ func runC07(c *Check, rng *rand.Rand) {
 		script.Forget(slowTok)
 		cl.Close()
 		cl2.Close()
+	}
+	// clients that go away with a split request in flight: the late fragment replies of
+	// their abandoned requests arrive while other clients' split requests (decoded into
+	// recycled message objects) are being merged
+	for rd := 0; rd < c.Pick(30, 600) && env.P.Alive(); rd++ {
+		slowSlot := rng.Intn(16384)
+		slowNode := env.T.Owner(slowSlot).Node
+		var goners []*Client
+		var lateGates []*Gate
+		var abandoned []*c07req
+		for a := 0; a < 1+rng.Intn(4); a++ {
+			ca, err := env.Dial()
+			must(err, "dial")
+			// every fragment on a different node, one of them on the slow node and gated
+			// (the survivors below stay away from the slow node: a node answers a connection
+			// in order, so nothing of theirs may queue behind the held-back fragments)
+			var slots []int
+			used := map[*Node]bool{}
+			for tries := 0; len(slots) < 2+rng.Intn(3) && tries < 100000; tries++ {
+				sl := rng.Intn(16384)
+				o := env.T.Owner(sl)
+				if o == nil || used[o.Node] || (len(slots) == 0) != (o.Node == slowNode) {
+					continue
+				}
+				used[o.Node] = true
+				slots = append(slots, sl)
+			}
+			r := c07genSlots(rng, kinds[rng.Intn(3)], slots, len(slots)+rng.Intn(4), false)
+			gs := r.install(script, true)
+			for i, g := range gs {
+				if env.T.Owner(r.slots[i]).Node == slowNode {
+					lateGates = append(lateGates, g) // answered only after the client is gone
+				} else {
+					g.Open()
+				}
+			}
+			ca.Send(r.raw)
+			goners = append(goners, ca)
+			abandoned = append(abandoned, r)
+		}
+		env.Barrier()
+		for _, ca := range goners {
+			ca.Close()
+		}
+		env.Barrier()
+		// the survivors: split requests whose fragments are held back as well
+		nb := 1 + rng.Intn(3)
+		type surv struct {
+			cl    *Client
+			reqs  []*c07req
+			gates [][]*Gate
+		}
+		var ss []*surv
+		for b := 0; b < nb; b++ {
+			cb, err := env.Dial()
+			must(err, "dial")
+			sv := &surv{cl: cb}
+			var batch []byte
+			for i := 0; i < 1+rng.Intn(3); i++ {
+				r := c07genNodes(rng, env, kinds[rng.Intn(3)], 2+rng.Intn(3), 3+rng.Intn(5), slowNode)
+				sv.gates = append(sv.gates, r.install(script, true))
+				sv.reqs = append(sv.reqs, r)
+				batch = append(batch, r.raw...)
+			}
+			cb.Send(batch)
+			ss = append(ss, sv)
+		}
+		env.Barrier()
+		// a part of each survivor's fragments is answered, then the late replies for the
+		// dead clients' requests arrive, then the rest
+		for _, sv := range ss {
+			for _, gs := range sv.gates {
+				gs[len(gs)-1].Open()
+			}
+		}
+		env.Barrier()
+		for _, g := range lateGates {
+			g.Open()
+		}
+		env.Barrier()
+		for _, sv := range ss {
+			for _, gs := range sv.gates {
+				for _, g := range gs[:len(gs)-1] {
+					g.Open()
+				}
+			}
+		}
+		for _, sv := range ss {
+			ok := sv.cl.WaitReplies(len(sv.reqs), 5*time.Second)
+			if !ok {
+				env.Barrier()
+				time.Sleep(time.Second)
+				env.Barrier()
+			}
+			snap := sv.cl.Snapshot()
+			for i, r := range sv.reqs {
+				c.Eval(1)
+				c.Distinct(fmt.Sprintf("after-disconnect/%s/%d/%d", r.kind, len(r.keys), len(r.slots)))
+				if !env.P.Alive() {
+					c.Violate(Violation{Class: "proxy-died", Shape: "after-client-disconnect", Detail: env.P.PanicLine(), Witness: map[string]interface{}{"request": Q(r.raw), "stderr": env.P.OutputTail(1500)}})
+					break
+				}
+				if i >= len(snap.Replies) {
+					c.Violate(Violation{Class: "no-merged-reply", Shape: "after-client-disconnect", Detail: "merged reply missing after other clients went away with split requests in flight", Witness: map[string]interface{}{"request": Q(r.raw), "clients_gone": len(goners)}})
+					break
+				}
+				exp, _ := r.expected()
+				if got := snap.Replies[i].Val.Raw; !bytes.Equal(got, exp) {
+					c.Violate(Violation{Class: "merged-reply-wrong", Shape: "after-client-disconnect",
+						Detail:  fmt.Sprintf("merged %s reply differs from the reference merge (first difference at offset %d) after the late fragment replies of %d disconnected clients arrived", r.kind, firstDiffB(got, exp), len(goners)),
+						Witness: map[string]interface{}{"request": Q(r.raw), "expected": Q(exp), "got": Q(got)}})
+					break
+				}
+				c.Count("merged_replies_verified", 1)
+			}
+			sv.cl.Close()
+		}
+		for _, r := range abandoned {
+			r.forget(script)
+		}
+		for _, sv := range ss {
+			for _, r := range sv.reqs {
+				r.forget(script)
+			}
+		}
 	}
 	c.SetExtra("exhaustive_permutations_up_to_fragments", fmax)
 	c.MinEvals = 100
